@@ -28,14 +28,41 @@ ASSUMPTIONS = [
 TEMPLATES = ["Weibull", "LogNormal", "Normal", "ExponentiatedWeibull", "GeneralizedGamma", "LogNormalNormFit", "VonMises", "ScipyGamma", "ScipyGenGamma"]
 
 
-def eq(a, b, rtol=1e-13, atol=1e-15):
+def eq(a, b, rtol=1e-13, atol=1e-15, extra=0.0):
+    """extra: additional absolute slack per element (conditioning of the evaluated function, see `sensitivity`)"""
     a = np.asarray(a, dtype=float)
     b = np.asarray(b, dtype=float)
     if a.shape != b.shape:
         return False
     with np.errstate(all="ignore"):
-        ok = (np.abs(a - b) <= rtol * np.maximum(np.abs(a), np.abs(b)) + atol) | (a == b) | (np.isnan(a) & np.isnan(b))
+        ok = (np.abs(a - b) <= rtol * np.maximum(np.abs(a), np.abs(b)) + atol + extra) | (a == b) | (np.isnan(a) & np.isnan(b))
     return bool(np.all(ok))
+
+
+ULP = 2.0 ** -52
+
+
+def sensitivity(family, names, method, theta_j, a):
+    """How much `method(a)` of the template moves when every parameter value moves by 2 ulp in either direction,
+    times 16: the dependence value virocon computes may legitimately differ from the reference's in the last ulp
+    (numpy's scalar and vector kernels), and an ill-conditioned evaluation (pdf of a Weibull a hair above its
+    location) amplifies that; a wrong parameter or a wrong given is an O(1) relative change, far outside this."""
+    a = np.asarray(a, dtype=float)
+    base = np.asarray(getattr(build.dist(family, {k: float(theta_j[k]) for k in names}), method)(a), dtype=float)
+    dev = np.zeros_like(base, dtype=float)
+    for k in names:
+        for sgn in (1.0, -1.0):
+            alt = {n: float(theta_j[n]) for n in names}
+            alt[k] = alt[k] * (1.0 + sgn * 2 * ULP) if alt[k] != 0 else sgn * 1e-300
+            try:
+                with np.errstate(all="ignore"):
+                    v = np.asarray(getattr(build.dist(family, alt), method)(a), dtype=float)
+            except Exception:  # noqa: BLE001
+                continue
+            d = np.abs(v - base)
+            dev = np.maximum(dev, np.where(np.isfinite(d), d, 0.0))
+    # the argument itself is passed unchanged, but a location-type shift of 2 ulp of |a| is the same thing
+    return 16.0 * dev
 
 
 def check_conditional(case, ctx):
@@ -74,6 +101,8 @@ def check_conditional(case, ctx):
         x = np.array([float(np.asarray(tmpl(j).icdf(q[j]))) for j in range(len(g))])
     arg = q if method == "icdf" else x
     expected = np.array([float(np.asarray(getattr(tmpl(j), method)(arg[j]))) for j in range(len(g))])
+    slack = np.array([float(sensitivity(family, names, method, {k: theta[k][j] for k in names}, arg[j])) for j in range(len(g))])
+    atol = 1e-14 if method == "cdf" else 1e-15  # scipy's von Mises cdf series leaves 1e-15 noise where the value is 0
 
     # fixed parameters constant, dependent parameters = shape value
     for j in range(len(g)):
@@ -88,7 +117,7 @@ def check_conditional(case, ctx):
 
     # vectorised call (the IFORM form)
     okv, got = ctx.call(f"vector:{family}:{method}", getattr(cond, method), np.array(arg), given=np.array(g))
-    if okv and not eq(got, expected, 1e-9):
+    if okv and not eq(got, expected, 1e-9, atol, slack):
         ctx.violation(f"vector:{family}:{method}", f"given={g.tolist()} arg={arg.tolist()} got={np.asarray(got).tolist()} expected={expected.tolist()}")
     # one at a time, scalar given (the ISORM form)
     oks = True
@@ -98,17 +127,18 @@ def check_conditional(case, ctx):
         if not oks:
             break
         one[j] = float(np.asarray(v))
-    if oks and not eq(one, expected, 1e-9):
+    if oks and not eq(one, expected, 1e-9, atol, slack):
         ctx.violation(f"scalar:{family}:{method}", f"given={g.tolist()} arg={arg.tolist()} got={one.tolist()} expected={expected.tolist()}")
-    if okv and oks and not eq(got, one, 1e-10):
+    if okv and oks and not eq(got, one, 1e-10, atol, 2 * slack):
         ctx.violation(f"vector_vs_scalar:{family}:{method}", f"given={g.tolist()} arg={arg.tolist()} vectorised={np.asarray(got).tolist()} one-at-a-time={one.tolist()}")
     # vector argument, scalar given (the HDC form); also 0-d given
     j0 = 0
     args0 = np.array(sorted(set(arg.tolist())))
     exp0 = np.asarray(getattr(tmpl(j0), method)(args0), dtype=float)
+    slack0 = sensitivity(family, names, method, {k: theta[k][j0] for k in names}, args0)
     for label, gv in (("scalar_given", float(g[j0])), ("zero_d_given", np.array(float(g[j0])))):
         okh, got0 = ctx.call(f"{label}:{family}:{method}", getattr(cond, method), args0, given=gv)
-        if okh and not eq(got0, exp0, 1e-9):
+        if okh and not eq(got0, exp0, 1e-9, atol, slack0):
             ctx.violation(f"{label}:{family}:{method}", f"given={g[j0]!r} arg={args0.tolist()} got={np.asarray(got0).tolist()} expected={exp0.tolist()}")
 
     # sampling: scalar given and vector given, equal (1e-11: the dependence value itself may differ in the last ulp) to the template under the same seed
